@@ -83,6 +83,11 @@ type taskSpec struct {
 	// whether or not the rlock list names it too; every other name of the rlock list for reading)
 	cmd          bool
 	rlist, wlist string
+	// `ptasks`, nested submission: a parent task named `parent` is submitted through Runner.Run (empty lock map,
+	// Pip.Namespaces = {Task: "", Lock: lockNS}) and its body is the `pip:run` command line of this task; the
+	// nested task is then `<parent>:t<i>` and - what the unchanged code does - its resources are named in the
+	// LOCK namespace it inherits unchanged from the parent (NewSubNamespaces), whatever the task names are
+	parent, lockNS string
 }
 
 func parseTaskSpecs(t string) ([]taskSpec, error) {
@@ -134,7 +139,16 @@ func parseTaskSpecs(t string) ([]taskSpec, error) {
 // specRows: the lock map the two lists of a pip:run command stand for — the SPEC side: every name of the wlock
 // list read-write (a name that is in both lists was asked for write access), the other names of the rlock
 // list read-only.  Names in order of first occurrence (rlock list first).
-func specRows(rlist, wlist string) []row {
+// effName: the name a resource of a list is locked under: `@…` names are global, every other name is prefixed with
+// the lock namespace (plain concatenation: pipc.Run's `lockNamespace + row`)
+func effName(lockNS, n string) string {
+	if strings.HasPrefix(n, "@") {
+		return n
+	}
+	return lockNS + n
+}
+
+func specRows(lockNS, rlist, wlist string) []row {
 	var rows []row
 	at := map[string]int{}
 	add := func(list string, write bool) {
@@ -142,6 +156,7 @@ func specRows(rlist, wlist string) []row {
 			return
 		}
 		for _, n := range strings.Split(list, ",") {
+			n = effName(lockNS, n)
 			if k, ok := at[n]; ok {
 				rows[k].write = rows[k].write || write
 				continue
@@ -167,19 +182,44 @@ var plainName = func(s string) bool {
 	return true
 }
 
-// parsePTaskSpecs: `<waits>/<rlist>/<wlist>;…`, a list = `-` or `,`-separated plain names
+var nsText = func(s string) bool { // a lock namespace in an op line: name characters and ':'
+	for _, c := range s {
+		if !(c == '_' || c == ':' || (c >= 'a' && c <= 'z') || (c >= 'A' && c <= 'Z') || (c >= '0' && c <= '9')) {
+			return false
+		}
+	}
+	return true
+}
+
+// parsePTaskSpecs: `<waits>/<rlist>/<wlist>[/<parent>[~<lock namespace>]];…`, a list = `-` or `,`-separated
+// names (plain or `@global`); with the fourth field the task is a nested submission (see taskSpec.parent):
+// parents are distinct, nested tasks have no wait list and nobody waits for them (wait names are resolved in
+// the task namespace of the scope that runs pip:run)
 func parsePTaskSpecs(t string) ([]taskSpec, error) {
 	var res []taskSpec
+	parents := map[string]bool{}
 	for i, part := range strings.Split(strings.TrimSpace(t), ";") {
 		f := strings.Split(part, "/")
-		if len(f) != 3 {
+		if len(f) != 3 && len(f) != 4 {
 			return nil, fmt.Errorf("bad task %q", part)
 		}
 		sp := taskSpec{cmd: true}
+		if len(f) == 4 {
+			pn := strings.SplitN(f[3], "~", 2)
+			sp.parent = pn[0]
+			if len(pn) == 2 {
+				sp.lockNS = pn[1]
+			}
+			if !plainName(sp.parent) || parents[sp.parent] || !nsText(sp.lockNS) || (f[0] != "-" && f[0] != "") {
+				return nil, fmt.Errorf("bad parent %q", f[3])
+			}
+			parents[sp.parent] = true
+			f = f[:3]
+		}
 		if f[0] != "-" && f[0] != "" {
 			for _, w := range strings.Split(f[0], ",") {
 				n, err := strconv.Atoi(w)
-				if err != nil || n < 0 || n >= i {
+				if err != nil || n < 0 || n >= i || res[n].parent != "" {
 					return nil, fmt.Errorf("bad wait %q", w)
 				}
 				sp.waits = append(sp.waits, n)
@@ -191,7 +231,7 @@ func parsePTaskSpecs(t string) ([]taskSpec, error) {
 			}
 			if l != "" {
 				for _, n := range strings.Split(l, ",") {
-					if !plainName(n) {
+					if !plainName(strings.TrimPrefix(n, "@")) {
 						return nil, fmt.Errorf("bad name %q", n)
 					}
 				}
@@ -202,7 +242,7 @@ func parsePTaskSpecs(t string) ([]taskSpec, error) {
 				sp.wlist = l
 			}
 		}
-		sp.rows = specRows(sp.rlist, sp.wlist)
+		sp.rows = specRows(sp.lockNS, sp.rlist, sp.wlist)
 		res = append(res, sp)
 	}
 	return res, nil
@@ -225,7 +265,7 @@ func namedInBoth(specs []taskSpec) bool {
 			for j, o := range specs {
 				if j != i {
 					for _, rw := range o.rows {
-						if rw.name == n {
+						if rw.name == effName(sp.lockNS, n) {
 							return true
 						}
 					}
@@ -247,6 +287,12 @@ func ptaskSpecsText(specs []taskSpec) string {
 	parts := make([]string, len(specs))
 	for i, sp := range specs {
 		parts[i] = joinWaits(sp.waits) + "/" + listText(sp.rlist) + "/" + listText(sp.wlist)
+		if sp.parent != "" {
+			parts[i] += "/" + sp.parent
+			if sp.lockNS != "" {
+				parts[i] += "~" + sp.lockNS
+			}
+		}
 	}
 	return strings.Join(parts, ";")
 }
@@ -595,26 +641,62 @@ func opTasks(specs []taskSpec, mode string, seed uint64) (res string, trace stri
 			line += ` --wait="` + strings.Join(wait, ",") + `"`
 		}
 		root := roots[specs[i].group]
-		rctx := termexec.NewRunCtx(termexec.RunCtxParams{
-			Application: mapp,
-			Ctx:         gio.NewIOContext(root, mapp.IOContext().IO()),
-			Commands:    mapp.Terminal(),
-		})
-		errc := make(chan error, 1)
-		go func() {
-			var e error
-			if p, v := hx.Guard(func() { e = termexec.RunString(rctx, line) }); p {
-				e = fmt.Errorf("panic: %v", v)
-			}
-			errc <- e
-		}()
 		tm, terr := deps.TasksUnit.FromScope(root)
 		if terr != nil {
 			return terr
 		}
+		errc := make(chan error, 1)
+		name := taskName(i)
+		if specs[i].parent != "" {
+			// nested: the command line is the body of a parent task started through Runner.Run (which returns at
+			// once: the parents of a case run concurrently); the parent holds nothing itself
+			name = specs[i].parent + ":" + name
+			var rerr error
+			if p, v := hx.Guard(func() {
+				rerr = deps.Runner.Run(pipservices.Pip{
+					Context: pipservices.PipContext{
+						In:    gio.NewInput(strings.NewReader(line)),
+						Out:   gio.NewNilOutput(),
+						Err:   gio.NewNilOutput(),
+						CWD:   cwd,
+						Scope: root,
+					},
+					Name:       specs[i].parent,
+					Namespaces: namespaces.NewNamespaces(pipservices.NamasepacesParams{Lock: specs[i].lockNS}),
+					Sandbox:    "self",
+					Lock:       lockMapOf(nil),
+				})
+			}); p {
+				rerr = fmt.Errorf("panic: %v", v)
+			}
+			if rerr != nil {
+				return rerr
+			}
+			ptask, ok := tm.Get(specs[i].parent)
+			if !ok {
+				return fmt.Errorf("accepted parent task %s is not in its manager", specs[i].parent)
+			}
+			go func() { // the parent ends only after its nested task: reported like a returned command
+				hx.Guard(func() { ptask.Wait() })
+				errc <- nil
+			}()
+		} else {
+			rctx := termexec.NewRunCtx(termexec.RunCtxParams{
+				Application: mapp,
+				Ctx:         gio.NewIOContext(root, mapp.IOContext().IO()),
+				Commands:    mapp.Terminal(),
+			})
+			go func() {
+				var e error
+				if p, v := hx.Guard(func() { e = termexec.RunString(rctx, line) }); p {
+					e = fmt.Errorf("panic: %v", v)
+				}
+				errc <- e
+			}()
+		}
 		deadline := time.Now().Add(watchdog)
 		for spin := 0; ; spin++ {
-			if task, ok := tm.Get(taskName(i)); ok {
+			if task, ok := tm.Get(name); ok {
 				actual[i] = lockMapText(task.LockMap())
 				tc.mu.Lock()
 				tc.events++
@@ -624,19 +706,19 @@ func opTasks(specs []taskSpec, mode string, seed uint64) (res string, trace stri
 			}
 			select {
 			case e := <-errc:
-				if task, ok := tm.Get(taskName(i)); ok { // created and already over
+				if task, ok := tm.Get(name); ok { // created and already over
 					actual[i] = lockMapText(task.LockMap())
 					watch(i, task)
 					return nil
 				}
 				if e == nil {
-					e = fmt.Errorf("pip:run returned without creating task %s", taskName(i))
+					e = fmt.Errorf("pip:run returned without creating task %s", name)
 				}
 				return e
 			default:
 			}
 			if time.Now().After(deadline) {
-				return fmt.Errorf("pip:run did not create task %s", taskName(i))
+				return fmt.Errorf("pip:run did not create task %s", name)
 			}
 			if spin < 50 {
 				runtime.Gosched()
@@ -1049,6 +1131,18 @@ var ptasksFamily = []string{
 	"-/a,b/-;-/b,a/a;-/b,a/b",   // both lists share two names, each task writes one of them
 	"-/-/r;-/r/r;-/r/-",         // plain writer, both-lists writer, reader
 	"-/r/-;-/r/-;-/r,o/o;-/o/o", // control: o in both lists, r only read: the readers share
+	// nested submissions: the pip:run lines are the bodies of parent tasks that run concurrently; the nested tasks
+	// are `first:t0`, `second:t1` - different TASK namespaces - and their resources are named in the LOCK
+	// namespace, which both inherit unchanged
+	"-/-/res/first;-/-/res/second",                // two nested writers of res
+	"-/res/-/first;-/-/res/second",                // nested reader, nested writer
+	"-/-/res/first;-/res/-",                       // nested writer, top-level reader
+	"-/-/res;-/o,res/res/second",                  // top-level writer, nested writer naming res in both lists
+	"-/-/res/first~ns;-/-/res/second~ns",          // both parents in lock namespace `ns`: both lock `nsres`
+	"-/-/res/first~ns;-/-/nsres/second;-/nsres/-", // plain concatenation: `ns`+`res` is the top-level name `nsres`
+	"-/-/@g/first~ns;-/@g/-/second;-/-/@g",        // a global name is the same resource in every namespace
+	"-/-/res/first~a;-/-/res/second~b;-/-/res",    // control: three different lock namespaces share nothing
+	"-/-/b,a/first~x:;-/a/b/second~x:;-/a/-",      // namespace with a separator; the top-level `a` is another resource
 }
 
 func genPTasksAdv(k int) string {
@@ -1071,13 +1165,29 @@ func genPTasksRnd(r *hx.Rand) string {
 		}
 		return strings.Join(l, ",")
 	}
+	// half of the sets: nested submissions (each under a parent of its own) in one of two lock namespaces, and a
+	// global name in the pool
+	nestPct, nss := 0, []string{""}
+	if r.Intn(2) == 0 {
+		nestPct = []int{40, 70, 100}[r.Intn(3)]
+		nss = [][]string{{""}, {"", "ns"}, {"ns", "ns"}, {"", "a"}, {"x:", "x:"}}[r.Intn(5)]
+		names = append(append([]string(nil), names...), "@g")
+		if nss[len(nss)-1] == "a" {
+			names = append(names, "ab", "b") // `a`+`b` = `ab`
+		}
+	}
 	for i := range specs {
 		specs[i].cmd = true
-		if i > 0 && r.Intn(3) == 0 {
-			specs[i].waits = []int{r.Intn(i)}
+		if r.Intn(100) < nestPct {
+			specs[i].parent = fmt.Sprintf("q%d", i)
+			specs[i].lockNS = nss[r.Intn(len(nss))]
+		} else if i > 0 && r.Intn(3) == 0 {
+			if w := r.Intn(i); specs[w].parent == "" {
+				specs[i].waits = []int{w}
+			}
 		}
 		var rl, wl []string
-		for _, row := range genMap(r, names, np, writePct) {
+		for _, row := range genMap(r, names, len(names), writePct) {
 			if row.write {
 				wl = append(wl, row.name)
 				if r.Intn(2) == 0 {
